@@ -210,8 +210,9 @@ CLAIMED["C08"] = dict(
     "to the key than every other one is what the dictionary holds wherever it stands in the list, i.e. independently of the adapter order (C08_unique_best_any_order); keys have one of "
     "the indexed lengths (C08_key_lengths, from the band of the DP); the coordinates of every match reported by the look-up loop lie inside the read and are anchored, also for reads "
     "shorter than an indexed string (C08_coordinates); whenever all anchored affixes of an N-free read that the dictionary knows belong to one adapter and one of them has an indexed length "
-    "that fits, a match is reported and it is a match of that adapter (C08_unique_reported: loop over descending lengths, sequential affix shrinking = direct slicing). PARTIAL: that the "
-    "banded DP cost of an indel entry is the edit distance is not a theorem; it rests on the correspondence (IndexedPrefix/SuffixAdapters.match_to, the index's string lengths and "
+    "that fits, a match is reported and it is a match of that adapter (C08_unique_reported: loop over descending lengths, sequential affix shrinking = direct slicing). the error count of every entry is its exact distance within the tolerance -- the edit distance for adapters with indels (C08_entry_exact: the banded DP of edit_environment "
+    "computes in every cell of the band the prefix distance capped at k+1; cells outside the band have distance > k), the Hamming distance otherwise. The statement of the property is "
+    "thereby covered by theorems on the model except the clause about agreement with one-by-one search (which involves the aligner's own tie-breaking). Tie to the code and that clause rest on the correspondence (IndexedPrefix/SuffixAdapters.match_to, the index's string lengths and "
     "dictionary content on probe strings vs the extracted model; 16k-200k cases) and on the textbook-distance oracle (soundness incl. coordinates and exact errors, unique occurrence, "
     "agreement with one-by-one search and order independence for equal lengths without indels; also at the command line with and without --no-index). Genuine defects found and repaired: "
     "F8a (9002ce0), F8b (db1eac7).",
